@@ -16,26 +16,26 @@ import (
 )
 
 type TableVal struct {
-	Kind    string // "string", "ints", "strings", "map", "errnew", "other"
-	Str     string
-	Ints    []int64
-	Strs    []string
-	MapKeys []constant.Value
-	MapVals []constant.Value // nil entries for non-constant values
+	Kind        string // "string", "ints", "strings", "map", "errnew", "other"
+	Str         string
+	Ints        []int64
+	Strs        []string
+	MapKeys     []constant.Value
+	MapVals     []constant.Value // nil entries for non-constant values
 	MapValExprs []ast.Expr
-	derived bool // value produced by recognised init() loops, not by a literal
-	Spec    *ast.ValueSpec
-	Pkg     *packages.Package
-	Expr    ast.Expr
+	derived     bool // value produced by recognised init() loops, not by a literal
+	Spec        *ast.ValueSpec
+	Pkg         *packages.Package
+	Expr        ast.Expr
 }
 
 type Tables struct {
-	p     *Prog
-	vals  map[*types.Var]*TableVal
-	byG   map[*ssa.Global]*types.Var
+	p                *Prog
+	vals             map[*types.Var]*TableVal
+	byG              map[*ssa.Global]*types.Var
 	storeOutsideInit map[*ssa.Global]bool
-	elemMut map[*ssa.Global]bool
-	scanned bool
+	elemMut          map[*ssa.Global]bool
+	scanned          bool
 }
 
 func (p *Prog) Tables() *Tables {
@@ -74,7 +74,9 @@ func (p *Prog) Tables() *Tables {
 }
 
 // deriveInitMaps: a package-level map created with make(...) and filled in init() only by loops of the shapes
-//     for k, v := range SRC { DST[v] = k }   (inversion)      for k, v := range SRC { DST[k] = v }   (copy)
+//
+//	for k, v := range SRC { DST[v] = k }   (inversion)      for k, v := range SRC { DST[k] = v }   (copy)
+//
 // over literal map tables SRC gets the value those loops produce (in source order). Any other statement that
 // mentions DST inside an init function leaves it without a value.
 func (t *Tables) deriveInitMaps() {
